@@ -13,8 +13,8 @@ UNBREAKABLE = ('CodeFence', 'BlockCode', 'HtmlBlock', 'Table', 'Heading')
 _PREFIX = re.compile(r'^(?: {0,3}> ?| *(?:[-+*]|\d+[.)]) +| +)*')
 
 
-def md_l(text, L):
-    return renderers.render('Markdown', {'max_line_length': L}, text)[0]
+def md_l(text, L, nw=False):
+    return renderers.render('Markdown', {'max_line_length': L, 'normalize_whitespace': True} if nw else {'max_line_length': L}, text)[0]
 
 
 def unbreakable_dumps(text):
@@ -95,39 +95,39 @@ def long_line_errors(out, L):
     return errs
 
 
-def check_text(text, L, labels=(), nt=False):
+def check_text(text, L, labels=(), nt=False, nw=False):
     try:
         h1, f1 = c09.html_and_defs(text)
         base = unbreakable_dumps(text)
     except Exception as exc:
         return Out(skip='source raised ' + exc_sig(exc))
     try:
-        out = md_l(text, L)
+        out = md_l(text, L, nw)
     except Exception as exc:
-        return Out(Fail('same-meaning', 'MarkdownRenderer raised ' + exc_sig(exc), markdown=text, L=L, error=repr(exc)), nt=nt, labels=labels)
+        return Out(Fail('same-meaning', 'MarkdownRenderer raised ' + exc_sig(exc), markdown=text, L=L, normalize_whitespace=nw, error=repr(exc)), nt=nt, labels=labels)
     try:
         h2, f2 = c09.html_and_defs(out)
         after = unbreakable_dumps(out)
     except Exception as exc:
-        return Out(Fail('same-meaning', 'reflowed text does not parse: ' + exc_sig(exc), markdown=text, L=L, reflowed=out), nt=nt, labels=labels)
+        return Out(Fail('same-meaning', 'reflowed text does not parse: ' + exc_sig(exc), markdown=text, L=L, normalize_whitespace=nw, reflowed=out), nt=nt, labels=labels)
     if normalize_ws(h1) != normalize_ws(h2):
         i, a, b = c03.first_diff(normalize_ws(h2), normalize_ws(h1))
-        return Out(Fail('same-meaning', 'html differs', markdown=text, L=L, reflowed=out, after_at=a, before_at=b), nt=nt, labels=labels)
+        return Out(Fail('same-meaning', 'html differs', markdown=text, L=L, normalize_whitespace=nw, reflowed=out, after_at=a, before_at=b), nt=nt, labels=labels)
     def ws(f):
         return {k: [v[0], ' '.join(v[1].split())] for k, v in f.items()}
     if ws(f1) != ws(f2):
-        return Out(Fail('same-meaning', 'definitions differ', markdown=text, L=L, reflowed=out, before=f1, after=f2), nt=nt, labels=labels)
+        return Out(Fail('same-meaning', 'definitions differ', markdown=text, L=L, normalize_whitespace=nw, reflowed=out, before=f1, after=f2), nt=nt, labels=labels)
     if base != after:
-        return Out(Fail('unbreakable-blocks', 're-broken', markdown=text, L=L, reflowed=out), nt=nt, labels=labels)
+        return Out(Fail('unbreakable-blocks', 're-broken', markdown=text, L=L, normalize_whitespace=nw, reflowed=out), nt=nt, labels=labels)
     errs = long_line_errors(out, L)
     if errs:
-        return Out(Fail('line-length', 'breakable space left', markdown=text, L=L, reflowed=out, errors=errs[:4]), nt=nt, labels=labels)
+        return Out(Fail('line-length', 'breakable space left', markdown=text, L=L, normalize_whitespace=nw, reflowed=out, errors=errs[:4]), nt=nt, labels=labels)
     try:
-        out2 = md_l(out, L)
+        out2 = md_l(out, L, nw)
     except Exception as exc:
-        return Out(Fail('idempotent', 'second reflow raised ' + exc_sig(exc), markdown=text, L=L, reflowed=out), nt=nt, labels=labels)
+        return Out(Fail('idempotent', 'second reflow raised ' + exc_sig(exc), markdown=text, L=L, normalize_whitespace=nw, reflowed=out), nt=nt, labels=labels)
     if out2 != out:
-        return Out(Fail('idempotent', 'second reflow differs', markdown=text, L=L, first=out, second=out2), nt=nt, labels=labels)
+        return Out(Fail('idempotent', 'second reflow differs', markdown=text, L=L, normalize_whitespace=nw, first=out, second=out2), nt=nt, labels=labels)
     return Out(nt=nt, labels=labels)
 
 
@@ -136,23 +136,23 @@ class Documents(HypPart):
     budget = {'quick': 24000, 'thorough': 1200000}
     rule = ('G4 documents over the reflow-safe vocabulary (no word or construct that could be read as a block marker at the start of a '
             'line, no raw inline HTML, no titles with spaces, no character references) nested to depth 4, with emphasis, code spans, links, '
-            'images, hard breaks and link definitions; x L in 1..120 (weighted towards 1..40); clauses: whitespace-normalised HTML and '
+            'images, hard breaks and link definitions; x L in 1..120 (weighted towards 1..40) x normalize_whitespace (on in a third of the cases); clauses: whitespace-normalised HTML and '
             'definitions unchanged, unbreakable blocks unchanged, no breakable space on a line longer than L, idempotent; non-trivial = a '
             'paragraph or setext heading longer than L inside a container; distinct = distinct (tape, L)')
-    required_labels = {'wrapped-in-container': 0.1}
+    required_labels = {'wrapped-in-container': 0.1, 'normalize_whitespace:True': 0.2}
 
     def strategy(self, tier):
         def to_case(h):
             b = bytes.fromhex(h)
             x = b[-1]
             L = 1 + (b[-2] % 40 if x % 4 else b[-2] % 120)
-            return {'tape': b[:-2].hex(), 'opts': {}, 'L': L}
+            return {'tape': b[:-2].hex(), 'opts': {}, 'L': L, 'nw': (x >> 2) % 3 == 0}
         return hex_tapes(22, 500 if tier == 'quick' else 1500).map(to_case)
 
     def describe(self, case):
         opts = {'exclude': c03.Documents().excludes() + c09.RT_EXCLUDES, 'reflow_safe': True,
                 'refs': bool(int(case['tape'][:2] or '0', 16) % 3 == 0)}
-        return 'L=%s\n%s' % (case.get('L'), c03.build(case, opts)[1])
+        return 'L=%s normalize_whitespace=%s\n%s' % (case.get('L'), bool(case.get('nw')), c03.build(case, opts)[1])
 
     def check(self, case):
         L = case.get('L')
@@ -179,8 +179,9 @@ class Documents(HypPart):
                     for it in b.items:
                         walk(it.children, depth + 1)
         walk(doc.children, 0)
-        labels = ('L:%s' % ('1-10' if L <= 10 else '11-40' if L <= 40 else '41-120'),) + (('wrapped-in-container',) if nt else ())
-        return check_text(text, L, labels, nt)
+        nw = bool(case.get('nw'))
+        labels = ('L:%s' % ('1-10' if L <= 10 else '11-40' if L <= 40 else '41-120'), 'normalize_whitespace:%s' % nw) + (('wrapped-in-container',) if nt else ())
+        return check_text(text, L, labels, nt, nw)
 
 
 CURATED = [
@@ -196,7 +197,7 @@ CURATED = [
 class Curated(EnumPart):
     name = 'curated'
     no_shrink = True
-    rule = 'hand-written documents x every L in 1..60'
+    rule = 'hand-written documents x every L in 1..60 x normalize_whitespace'
 
     def shards(self, tier):
         return 4
@@ -208,9 +209,10 @@ class Curated(EnumPart):
                 idx += 1
                 if idx % n == k:
                     yield {'markdown': text, 'L': L}
+                    yield {'markdown': text, 'L': L, 'nw': True}
 
     def check(self, case):
-        return check_text(case['markdown'], case['L'], (), True)
+        return check_text(case['markdown'], case['L'], (), True, bool(case.get('nw')))
 
     def known_class(self, case, fail):
         return case.get('class')
